@@ -329,7 +329,11 @@ def s_format(e, st, callee, args, dty):
             a = argv[nexta]
             nexta += 1
             inner = a.fields[0] if isinstance(a, Agg) and a.ty == "fmtarg" else a
-            out += display_bytes(e, st, inner)
+            try:
+                out += display_bytes(e, st, inner)
+            except Inconclusive:
+                # an argument whose text is not modelled: the formatted string is unknown
+                return Lazy(st.fresh("formatted"), "String")
             i += 1
         else:
             raise Inconclusive("format piece code 0x%02x is not modelled" % b)
